@@ -110,7 +110,7 @@ def _r1(model, res, c, g, acts, opaque):
             res.violation('R1', 'operator:unary-minus:error', m.where(f),
                           'unary minus applied to an error value does not evaluate to that error: %s' % '; '.join(H.describe(bad)[:2]),
                           func=f.name)
-    res.floor('abstract runs of operator actions with an error operand', n, 150)
+    res.soft_floor('abstract runs of operator actions with an error operand', n, 150)
 
 
 def _r2(model, res, c, g, opaque):
@@ -198,7 +198,7 @@ def _r3(model, res, c, g, opaque):
             res.violation('R3', '%s:%s:call-boundary:%s' % (key[0], key[1], how), m.where(f),
                           'a called function that %s error.%s must yield %s; got %s - IFERROR/ISERROR/ISNA/ERROR.TYPE cannot then observe '
                           'the error' % (how, what, why, '; '.join(H.describe(bad)[:2])), case={'function': how, 'error': what}, func=key[1])
-    res.floor('abstract runs of the call callback', n, 15)
+    res.soft_floor('abstract runs of the call callback', n, 15)
 
 
 def _r4(model, res, c, opaque):
@@ -262,7 +262,7 @@ def _r4(model, res, c, opaque):
     for t in ('int', 'str', 'none', 'bool'):
         check('ERROR.TYPE', lambda t=t: [mkv(t, 'x')],
               lambda o: o.kind == 'return' and isinstance(o.value, Err) and o.value.name == NA, {'value': t})
-    res.floor('subjects run through the trapping functions', n, 15)
+    res.soft_floor('subjects run through the trapping functions', n, 15)
 
 
 def _ck(case):
